@@ -1,8 +1,8 @@
 """C10 — a relation tagged #[ds(ascent_byods_rels::eqrel)] behaves as its explicit equivalence closure.
 
 Coq: Byods/Closure.v (closures), Byods/Provider.v (laws P1-P5), Byods/EqRelModel.v (model of EqRel, of the
-old/combined pair with its merge, of the parallel wrapper, of the ternary per-key map AS WRITTEN),
-Byods/EqRelProofs.v, Byods/Ternary.v, Props/C10.v.
+old/combined pair with its merge, of the parallel wrapper, of the ternary per-key map + reverse map),
+Byods/EqRelUF.v, EqRelProofs.v, EqRelPar.v, Ternary.v, EqRelTernary.v, Props/C10.v.
 
 tie, two halves (gen/c10_ds.py, gen/c10_prog.py):
   DS    operation histories `insert(new, t)* ; merge ; read every view of delta and total ; ...` against the real
@@ -123,7 +123,7 @@ def tie(tier, seed, replay):
               "non-trivial = at least one insert and at least two dumps of every view of delta and total, distinct = distinct history text. "
               "PROG: programs from 5 feed shapes (plain, recursive along an edge relation, mutual recursion through a plain relation, a clock releasing facts "
               "of different keys at different iterations, heads in two strata) x binary serial / binary parallel / ternary x 2-4 read rules over every subset "
-              "of bound columns (variables, constants, repeated variable; binder first or tagged relation first; in a later stratum or inside the recursive stratum) "
+              "of bound columns incl. the third column alone of the ternary form and both columns of the parallel binary form (variables, constants, repeated variable; binder first or tagged relation first; in a later stratum or inside the recursive stratum) "
               "+ join / count / negation readers, 3-4 inputs each; non-trivial = the tagged relation is written in a recursive stratum or in two strata and a reader derives something"),
         samples=samples,
         distribution=dict(ds=stats, prog=dict(programs=len(results), program_inputs_checked=checked, oracle_timeouts=skipped, features=feats)),
@@ -137,7 +137,5 @@ def tie(tier, seed, replay):
                      "PROG expected values come from the specification oracle on the EXPLICIT program (Engine/Strat.v strat_fix, proved to compute the least / stratified model); that the real engine agrees with the oracle on the explicit program is asserted on every case (it is C01's subject)"],
         extra=dict(ds_histories=len(ds_cases), prog_programs=len(results), known_class_mismatch_counts=known_counts,
                    partial=[dict(full="engine_with_providers: run() of a program with a tagged relation leaves the least model of the program plus the explicit reflexivity / symmetry / transitivity rules (statement and what it needs: comment at the top of coq/Props/C10.v)",
-                                 proved="c10_eqrel_binary_provider_ok_partial, c10_eqrel_par_provider_ok_partial (provider laws P1-P5 for every history, every view against the closure), c10_engine_facing_* (what the engine consumes), c10_ternary_lifting",
-                                 gap="the engine model (Engine/Eval.v) has no provider-backed relations; the composition is carried by the PROG half of this tie"),
-                            dict(full="eqrel_ternary_provider_ok", proved="c10_ternary_refuted (+ witnesses): the ternary structure as written violates P2 / P3 / P4; c10_eqrel_ternary_lifted_ok is the statement for a merge that keeps every key's versions",
-                                 gap="genuine defects of /repo, listed in known_findings.json")]))
+                                 proved="c10_eqrel_binary_provider_ok, c10_eqrel_par_provider_ok, c10_eqrel_ternary_provider_ok (provider laws P1-P5 for every history, every view against the closure), the c10_engine_facing theorems (what the engine consumes), c10_ternary_lifting",
+                                 gap="the engine model (Engine/Eval.v) has no provider-backed relations; the composition is carried by the PROG half of this tie")]))
